@@ -176,6 +176,12 @@ def build():
             body = [_hdr(lang, nm) + " {", "    s = \"żółw\";", "    return s + \"é\"; }", "",
                     _hdr(lang, "w_" + _ident(cid), 1) + " { t = \"ß\"; return t; }"]
         put(cid, _wrap(lang, body, cid), lang)
+        # a file longer than 64 KiB (comment padding, so that analysis stays cheap) with its
+        # functions at the very end: anything that looks only at the head of a file misses them
+        cid = f"{p}.big"
+        pad = [_comment(lang, "padding %05d " % k + "x" * 78) for k in range(720)]
+        body = _fn(lang, "head_" + _ident(cid), 3) + [""] + pad + [""] + _fn(lang, "tail_" + _ident(cid), 32) + [""] + _fn(lang, "tail2_" + _ident(cid), 4)
+        put(cid, _wrap(lang, body, cid), lang)
         # two long functions of exactly the same length in one file
         cid = f"{p}.twins"
         body = _fn(lang, "t1_" + _ident(cid), 35) + [""] + _fn(lang, "t2_" + _ident(cid), 35, variant=1) + [""] + _fn(lang, "t3_" + _ident(cid), 62)
